@@ -199,7 +199,16 @@ EXTRA10 = {
  "C18": " Every comparison of GetAllTags with the registry is followed by overwriting the list received and asking again.",
  "C20": " The built-in logger after a configuration without root has come and gone; the interval's file already holding an acknowledged line of an earlier life.",
 }
-for e in (EXTRA, EXTRA5, EXTRA6, EXTRA7, EXTRA8, EXTRA9, EXTRA10):
+# round 11
+EXTRA11 = {
+ "C01": " One appender referenced twice by a logger, with disjoint ranges.",
+ "C03": " Two levels that share a code (a built-in one and its alias) in every sequence of 1-3 events, both layouts.",
+ "C05": " What the appender holds is counted at the moment each Stop returns, in every life of the logger object.",
+ "C07": " The alias-level sequences of C03.",
+ "C15": " A level name / rotation policy that is registered between a failed and a second Refresh; a policy re-registered with another interval.",
+ "C20": " A second life of the same configuration in one process, with an absolute and with a relative log directory.",
+}
+for e in (EXTRA, EXTRA5, EXTRA6, EXTRA7, EXTRA8, EXTRA9, EXTRA10, EXTRA11):
     for k, v in e.items():
         CHECKS[k]["text"] += v
 CHECKS["C15"]["note"] = CHECKS["C15"]["note"].replace("Trusted: the deviation table (expected defaults) in harness/enum/c15.go.", "Trusted: the deviation table in harness/enum/c15.go (expected defaults of integer/boolean/word attributes are read from the live plugin's struct tag, so a tree that declares other defaults is not an alarm).")
